@@ -97,8 +97,9 @@ def check(ctx, src):
     cl = comp.rm.func("compile_let")
     ctx.require(cl is not None, "compile_let not found")
     mk = pyq.contains(cl, lambda n: isinstance(n, ast.Assign) and norm(n) == "scope = compiler.scope.create(ScopeLet)")
-    call = pyq.contains(cl, lambda n: isinstance(n, ast.Call) and dotted(n.func) == "compile_assign" and any(k.arg == "let_scope" and norm(k.value) == "scope" for k in n.keywords))
-    body = pyq.contains(cl, lambda n: isinstance(n, ast.With) and norm(n.items[0].context_expr) == "scope" and pyq.contains(n.body, lambda x: isinstance(x, ast.Call) and "mkexpr('do', *body)" in norm(x)) is not None)
+    sv = mk.targets[0].id if mk is not None and isinstance(mk.targets[0], ast.Name) else None
+    call = pyq.contains(cl, lambda n: isinstance(n, ast.Call) and dotted(n.func) == "compile_assign" and any(k.arg == "let_scope" and isinstance(k.value, ast.Name) and k.value.id == sv for k in n.keywords))
+    body = pyq.contains(cl, lambda n: isinstance(n, ast.With) and isinstance(n.items[0].context_expr, ast.Name) and n.items[0].context_expr.id == sv and pyq.contains(n.body, lambda x: isinstance(x, ast.Call) and "mkexpr('do', *body)" in norm(x)) is not None)
     ctx.check(mk is not None and call is not None and body is not None, "LET-ORDER", f"{R}|compile_let|structure", "compile_let must create one ScopeLet, compile every binding with it, and compile the body inside it",
               R, cl.lineno, detail="create; compile_assign(let_scope=scope); with scope: body")
     # --- pairing
